@@ -20,7 +20,7 @@ RULE = (
 )
 ASSUMPTIONS = ["snapshots compare object identities, not reprs", "graphviz 'dot' is available for render cases (else they are skipped and counted)"]
 
-OPS = ["run_ok", "run_fail", "run_stalefail", "run_cycle", "dry", "render", "render_dry", "concurrent", "concurrent_reg", "copies", "run_opts", "foreign_entry", "run_dry_plan", "stub_source", "scope_independence", "empty_plan"]
+OPS = ["concurrent_rendezvous", "run_ok", "run_fail", "run_stalefail", "run_cycle", "dry", "render", "render_dry", "concurrent", "concurrent_reg", "copies", "run_opts", "foreign_entry", "run_dry_plan", "stub_source", "scope_independence", "empty_plan"]
 
 
 def _anyargs(*a, **k):
@@ -79,12 +79,84 @@ def run_empty_plan(desc):
     return r_
 
 
+def run_rendezvous(desc):
+    """Two (or three) runs of ONE Plan object from several threads whose calls wait for each other: 'can be run concurrently' means the runs overlap -
+    a run that waits for another run of the same plan to finish (a lock kept in the caller's Plan, a shared busy flag) never gets past the meeting point."""
+    import uberjob
+    from uberjob._testing import TestStore
+
+    rng = random.Random(desc["seed"])
+    T = rng.choice([2, 2, 3])
+    with_reg = rng.random() < 0.6
+    barrier = threading.Barrier(T)
+    entered = []
+    lock = threading.Lock()
+
+    def meet():
+        with lock:
+            entered.append(threading.get_ident())
+        barrier.wait(30)
+        return 1
+
+    def after(x, k):
+        return x + k
+
+    plan = uberjob.Plan()
+    m = plan.call(meet)
+    ys = [plan.call(after, m, k) for k in range(rng.randint(1, 3))]
+    registry = None
+    if with_reg:
+        registry = uberjob.Registry()
+        for y in ys[: rng.randint(1, len(ys))]:
+            registry.add(y, TestStore())
+    before = snapshot.plan_snapshot(plan)
+    before_r = snapshot.registry_snapshot(registry)
+    results = [None] * T
+    excs = [None] * T
+
+    def runner(j):
+        try:
+            results[j] = uberjob.run(plan, output=ys, registry=registry, max_workers=rng.choice([1, 2]), progress=None)
+        except BaseException as e:  # noqa
+            excs[j] = e
+
+    ts = [threading.Thread(target=runner, args=(j,), daemon=True) for j in range(T)]
+    for t_ in ts:
+        t_.start()
+    for t_ in ts:
+        t_.join(90)
+    bad = None
+    if any(t_.is_alive() for t_ in ts):
+        r_ = {"status": "inconclusive", "detail": "[concurrent_rendezvous] runs still alive after 90 s of wall clock"}
+        return r_
+    want = [1 + k for k in range(len(ys))]
+    if any(e is not None for e in excs):
+        n_in = len(entered)
+        bad = (f"{T} runs of one Plan object{' with a registry' if with_reg else ''} whose calls wait for each other: only {n_in} of {T} runs ever reached their first call within 30 s "
+               f"(the runs do not overlap); raised {[repr(e)[:70] for e in excs if e is not None][:1]}")
+    elif any(r != want for r in results):
+        bad = f"concurrent runs returned {results}, expected {want} each"
+    else:
+        d = snapshot.diff(before, snapshot.plan_snapshot(plan))
+        if d:
+            bad = f"concurrent runs modified the caller's Plan: {d}"
+        elif snapshot.diff(before_r, snapshot.registry_snapshot(registry)):
+            bad = "concurrent runs modified the caller's Registry"
+    r_ = {"status": "ok", "counters": {"operations": 1, "op_concurrent_rendezvous": 1, "snapshots_compared": 1, "concurrent_runners": T}, "nontrivial": True,
+          "sig": f"rendezvous|{T}|{with_reg}|{len(ys)}|{desc['seed'] % 1000}", "sets": {"ops": ["concurrent_rendezvous" + ("+registry" if with_reg else "")]}}
+    if bad:
+        r_.update(status="violation", detail=f"[concurrent_rendezvous] {bad}", mechanism="concurrent-runs")
+    return r_
+
+
 def run_case(desc):
     import uberjob
 
     op = desc["op"]
     if op == "empty_plan":
         return run_empty_plan(desc)
+    if op == "concurrent_rendezvous":
+        return run_rendezvous(desc)
     rng = random.Random(desc["seed"])
     counters = {"operations": 1, f"op_{op}": 1, "snapshots_compared": 0}
     bad = None
